@@ -1,1 +1,12 @@
 import AriesVerif.C11.Props
+#print axioms C11.Refines.run_eq
+#print axioms C11.mem_refines
+#print axioms C11.ldb_refines
+#print axioms C11.Cached.cached_refines
+#print axioms C11.Batched.batched_refines
+#print axioms C11.Formatted.formatted_refines
+#print axioms C11.stack_refines
+#print axioms C11.stack_init
+#print axioms C11.C11_stack_history
+#print axioms C11.C11_cached_prepopulated
+#print axioms C11.C11_batched_prepopulated
